@@ -206,6 +206,45 @@ decreasing_by
   · have := parsePart_length _h; simp; omega
   · simp
 
+/-! ### the grammar, generatively
+
+The same grammar as a printer plus a well-formedness predicate on shapes: `Props/C11.lean`
+(`C11_grammar_roundtrip`) shows that every format string `render ps` of a well-formed shape
+is read back as exactly `ps` — by `parse` and by the parser of the code. -/
+
+/-- `s` is text in which `d` groups are open at the start, every group is closed at the end,
+no closing brace is unmatched and — if `verb` — every character outside nested braces is a
+verbatim character.  `okText false 0` = balanced text, `okText true 0` = pre- or post-text. -/
+def okText (verb : Bool) : Nat → Str → Bool
+  | d, [] => d = 0
+  | d, c :: r =>
+    if c = '{' then okText verb (d + 1) r
+    else if c = '}' then d ≠ 0 && okText verb (d - 1) r
+    else (!verb || d ≠ 0 || isVerbChar c) && okText verb d r
+
+def Slot.letter : Slot → Char
+  | .first => 'f' | .von => 'v' | .last => 'l' | .jr => 'j'
+
+def Letters.text (l : Letters) : Str := if l.full then [l.slot.letter, l.slot.letter] else [l.slot.letter]
+
+def Part.wf (p : Part) : Bool :=
+  okText true 0 p.pre && okText true 0 p.post &&
+  (match p.sep with | some s => okText false 0 s | none => p.post.head? ≠ some '{') &&
+  (p.letters.isSome || (p.sep.isNone && p.post = []))
+
+def Piece.wf : Piece → Bool
+  | .ch c => c ≠ '{' && c ≠ '}'
+  | .part p => p.wf
+
+def Part.render (p : Part) : Str :=
+  ['{'] ++ p.pre ++ (match p.letters with | some l => l.text | none => []) ++
+    (match p.sep with | some s => ['{'] ++ s ++ ['}'] | none => []) ++ p.post ++ ['}']
+
+def render : List Piece → Str
+  | [] => []
+  | .ch c :: r => c :: render r
+  | .part p :: r => p.render ++ render r
+
 /-! ### the formatting rule -/
 
 /-- the tokens of the name part a letter refers to (`f` = first and middle names) -/
